@@ -13,6 +13,8 @@ KEYSETS = {
     'dsa+rsa': ('dsa2048', ['rsa1024b']),
     # ECDH subkeys whose key-derivation parameters (RFC 6637 section 9: hash, wrap cipher - part of the public-key packet) are not PGPy's per-curve defaults
     'eddsa+ecdh-kdf': ('ed25519a', ['cv25519a@10.9', 'ecdh_p384a@9.9']),
+    # P-521 points whose coordinates have leading zero octets (fixed 66-octet fields)
+    'ecdsa+ecdh-p521': ('ecdsa_p521b', ['ecdh_p521b']),
 }
 PASSES = [('ascii', 'a'), ('ascii40', 'The quick brown fox jumps over lazy dogs.'), ('utf8', 'pässwörd 密碼 \U0001F511'), ('long', 'x' * 1000)]
 HASH_ID = {'MD5': 1, 'SHA1': 2, 'RIPEMD160': 3, 'SHA256': 8, 'SHA384': 9, 'SHA512': 10, 'SHA224': 11}
@@ -499,7 +501,7 @@ class Prop(object):
 
     # ----------------------------------------------------------------------------------------------
     def _menu(self):
-        scope_bodies = [(), ('sign',), ('decrypt',), ('sign', 'decrypt'), ('protect2',), ('sign', 'protect2'), ('export',)]
+        scope_bodies = [(), ('sign',), ('decrypt',), ('sign', 'decrypt'), ('protect2',), ('sign', 'protect2'), ('export',), ('unlock-wrong-inner',), ('sign', 'unlock-wrong-inner')]
         menu = [('protect', 'p1', 'A'), ('protect', 'p2', 'B'), ('sign',), ('decrypt',), ('export-import',), ('pubkey',), ('copy',), ('unlock-wrong',)]
         for b in scope_bodies:
             for crash in [None] + list(range(len(b) + 1)):
@@ -632,6 +634,14 @@ class Prop(object):
                                     key.protect(PW['p2'], *CFG['B'])
                                     model['prot'] = 'p2'
                                     model['cfg'] = 'B'
+                                elif inner == 'unlock-wrong-inner':
+                                    # a wrong passphrase is a wrong passphrase also while the key happens to be open
+                                    if model['prot'] is not None:
+                                        try:
+                                            with key.unlock('not the passphrase'):
+                                                fail('wrong-passphrase-unlocks', 'unlock with a wrong passphrase was accepted inside an open unlock scope')
+                                        except pgpy.errors.PGPDecryptionError:
+                                            pass
                                 elif inner == 'export':
                                     exp = bytes(key)
                                     if model['prot'] is not None:
